@@ -223,6 +223,14 @@ impl LsmVerifier {
                         "manifest has bad discard: expected {discard:?}, but got {computed_discard:?}"
                     )));
                 }
+                // NOTE:  The name of an sst is the setsum of its entries, and the name is all the
+                // equations above see.  Nothing else ties what the file holds to the digest the
+                // edit balances, so read every sst the edit adds.
+                for added in edit.added() {
+                    if let Some(setsum) = Setsum::from_hexdigest(added) {
+                        self.verify_sst(setsum)?;
+                    }
+                }
                 if discard != Setsum::default() && edit.rmed().count() > 0 {
                     self.verify_gc(&edit, discard)?;
                 }
@@ -267,6 +275,28 @@ impl LsmVerifier {
             }
         }
         Ok(added)
+    }
+
+    /// Recompute the setsum of the entries the sst holds and compare it with the sst's name.
+    fn verify_sst(&self, setsum: Setsum) -> Result<(), SError> {
+        let mut cursor = self.get_cursor(setsum)?;
+        cursor.seek_to_first()?;
+        let mut acc = sst::Setsum::default();
+        loop {
+            cursor.next()?;
+            let Some(kvr) = cursor.key_value() else {
+                break;
+            };
+            acc.insert(kvr);
+        }
+        if acc.into_inner() != setsum {
+            return Err(
+                corruption("sst does not hold the entries its name stands for")
+                    .with_debug_field("name", setsum.hexdigest())
+                    .with_debug_field("entries", acc.into_inner().hexdigest()),
+            );
+        }
+        Ok(())
     }
 
     fn verify_gc(&self, edit: &Edit, discard: Setsum) -> Result<(), SError> {
